@@ -88,7 +88,7 @@ struct Run : ContBase {
         errno = poison;
         if (api == 0) { std::string v = gen_val(false, 120); Buf vb(v); ok = qlisttbl_put(t, kb->c(), vb.p, vb.n); if (scribble) vb.scribble(); e.val = v; e.isstr = false; }
         else if (api == 1) { std::string v = gen_text(40); Buf *vs = Buf::cstr(v); ok = qlisttbl_putstr(t, kb->c(), vs->c()); if (scribble) vs->scribble(); delete vs; e.val = v + std::string(1, '\0'); e.isstr = true; }
-        else if (api == 2) { std::string v = gen_text(20); long n = s.range(-99, 99); Buf *vs = Buf::cstr(v); ok = qlisttbl_putstrf(t, kb->c(), "%ld:%s", n, vs->c()); if (scribble) vs->scribble(); delete vs; e.val = std::to_string(n) + ":" + v + std::string(1, '\0'); e.isstr = true; }
+        else if (api == 2) { long n = s.range(-99, 99); std::string v = s.chance(1, 8) ? gen_fmt_text(20, 1 + std::to_string(n).size()) : gen_text(20); Buf *vs = Buf::cstr(v); ok = qlisttbl_putstrf(t, kb->c(), "%ld:%s", n, vs->c()); if (scribble) vs->scribble(); delete vs; e.val = std::to_string(n) + ":" + v + std::string(1, '\0'); e.isstr = true; }
         else { int64_t n = s.pick({1, 1, 1, 4}) == 3 ? (int64_t)s.range(-100000, 100000) : (s.boolean() ? INT64_MAX : INT64_MIN); ok = qlisttbl_putint(t, kb->c(), n); char b[32]; snprintf(b, sizeof b, "%" PRId64, n); e.val = std::string(b) + std::string(1, '\0'); e.isstr = true; }
         if (scribble) kb->scribble();
         delete kb;
